@@ -1088,6 +1088,10 @@ fn gen_frame(rng: &mut Rng) -> Vec<u8> {
     // and consumed like any other frame
     if rng.below(12) == 0 && f.len() > 4 { let k = 1 + rng.below(f.len() - 2); f[k] = [0xffu8, 0xe9, 0xc0, 0x80][rng.below(4)]; }
     f.extend_from_slice(pad(rng).as_bytes());
+    // ... and now and then a stray byte directly in front of the terminator or at the very start of the frame: 0x01 / 0x80 / 0xff
+    // and their neighbours are the bytes on which word-at-a-time scans for the terminator (has-zero-byte bit tricks) go wrong
+    if rng.below(8) == 0 { f.push([0x01u8, 0x02, 0x7f, 0x80, 0x81, 0xfe, 0xff, 0x1f][rng.below(8)]); }
+    if rng.below(24) == 0 { f.insert(0, [0x01u8, 0x80, 0xff, 0x7f][rng.below(4)]); }
     if f.is_empty() {
         f.push(b' ');
     }
